@@ -565,6 +565,18 @@ func runC03(c *Ctx) {
 		}
 	}()
 	ruleResetBefore(c, p, "C03.reset")
+	// read errors on the client's receive path reach only failure exits
+	c.R.Rule("C03.errors", "E6 (as C07.errors) restricted to package ch: every error of a read or decode on the receive path (packet code, exception, progress, profile, blocks) reaches only failure exits, so Do returns nil only for a stream that was read completely")
+	{
+		var fns []*ssa.Function
+		for _, fn := range p.Funcs() {
+			if pkgOf(fn) != nil && pkgOf(fn).Path() == core.PkgCh && !isServerSide(fn) {
+				fns = append(fns, fn)
+			}
+		}
+		n := runErrDisc(c, p, fns, errDiscOpts{Rule: "C03.errors", Class: readerClass(p), Exempt: isDoReceiverPacket})
+		c.R.Floor("C03.errors", cfg, n, 12)
+	}
 	c.R.Assumptions = append(c.R.Assumptions,
 		"order within one connection follows from the single sequential receive loop",
 		"decided: dispatch table, handler placement, callback error discipline, nil only at end-of-stream, exception chain plumbing; not decided: that the contents seen by callbacks equal what the server sent (value level)")
